@@ -37,7 +37,10 @@ CLAIM = dict(
           "when the object is entered again inside another application block; nested application blocks stop the inner "
           "application first and then the outer one (application_stops_object, application_stops, application_events, "
           "newApp_creates, nested_applications_stop_inner_first); the connection used "
-          "is the local Ethernet chip's when known, the BMP's most specific one (connection_choice).  THE WIRE: for EVERY decorated "
+          "is the local Ethernet chip's when known, the BMP's most specific one (connection_choice); the dimensions "
+          "discover_connections stores are the two independent maxima over the chips the P2P table has a route to: they cover every "
+          "working chip and are tight in each direction separately, the chip with the greatest x and the one with the greatest y "
+          "need not be the same (discoveredDims_covers).  THE WIRE: for EVERY decorated "
           "method of the generated signature table, every argument passing and every stack, each request the method's rule emits "
           "(directly or through inner decorated calls, which are resolved again) is addressed to the chip (x, y) bound for the call "
           "- (255, 255) for methods without chip coordinates, data-computed chips only for the four methods documented to visit "
@@ -74,9 +77,12 @@ CLAIM = dict(
           "decorated calls that omit `p` take it from the context stack, so e.g. `mc.get_processor_status(3, 1, 2)` reads via core "
           "0 but `with mc(x=1, y=2, p=3): mc.get_processor_status()` via core 3; the 17 methods the model proves affected are "
           "exactly the ones observed (evidence: wire_depends_on_passing_style, core_follows_ambient_p).  Whether a method body "
-          "fails (network error, failed allocation) is an input of the model taken from the run, not predicted.  The connection "
-          "table after discover_connections is observed (snapshot per datagram), not predicted by the model; connections are "
-          "identified by the host they were opened to.  F6 is fixed in the pinned tree: count_cores_in_state / "
+          "fails (network error, failed allocation) is an input of the model taken from the run, not predicted.  After "
+          "discover_connections the root chip and the SET of known connections are observed per datagram (connections are "
+          "identified by the host they were opened to), but the machine DIMENSIONS are not taken from the controller: the Lean "
+          "model computes them from the fake machine's P2P table as the code does (`discoveredDims`: table size minus the chips "
+          "without a route at the time discover_connections read it), so a controller that stored other dimensions is judged by "
+          "the right wrap-around.  F6 is fixed in the pinned tree: count_cores_in_state / "
           "wait_for_cores_to_reach_state / load_application are driven like every other method.  Restore verdict: after leaving "
           "a block the arguments in force must equal those before it whenever the Lean model says they are restored (they are "
           "not only when update_current_context inside the block changed an object that is also active below it - documented "
@@ -129,6 +135,7 @@ THEOREMS = ["signatures_wellformed", "every_method_has_rule", "precedence", "pre
             "stop_targets_application", "application_stops", "connection_choice_mc", "connection_choice_bmp",
             # context objects (re-entered / reused)
             "restore_block", "restore_arguments_static", "enter_events", "application_stops_object", "newApp_creates",
+            "discoveredDims_covers",
             # deepening round
             "application_events", "nested_applications_stop_inner_first", "block_events", "failing_call_unwinds",
             "rules_obey_signature_rule", "rules_chip_known", "carries_of_ruleOk", "wire_carries_resolved",
@@ -143,7 +150,13 @@ RULE = ("systematic part: every decorated method of MachineController and BMPCon
         "raising, callback raising with a later callback skipped, callback opening blocks and updating the context, user callback "
         "on an application context, failing stop signal, nested application blocks left by exception, BMP); discover_connections "
         "on fake machines up to 24x12 with dead chips / Ethernet down / boards not answering, followed by commands to chips of "
-        "the machine over the discovered table; 10 programs with kept context OBJECTS (a / b with the same arguments / a again "
+        "the machine over the discovered table; discover_connections on 12x12, 24x12, 12x24, 24x24, 36x24, 20x16, 13x17, 8x8, 16x28 "
+        "machines (root at (0,0) / (4,8) / (8,4)) with dead chips drawn anywhere and preferably where the dimensions are read off "
+        "(top of the last column, right end of the top row, whole last column / top row, the four corners, Ethernet chips; the top "
+        "right corner dead in half of them), some Ethernet chips down / not answering, followed by commands to chips of EVERY board "
+        "(its Ethernet chip, far corner, chips across the wrap-around), then another dead set, discover_connections again, commands "
+        "again - every datagram judged against the dimensions computed from the P2P table; all other streams that use a fake "
+        "machine draw dead chips the same way; 10 programs with kept context OBJECTS (a / b with the same arguments / a again "
         "with a command after every exit; application a / application(b) / a again; object used again after exit with an update "
         "made during the first use; one object entered from nested application blocks; exception raised inside the re-entered "
         "block; update_current_context inside the re-entered block; callbacks registered once on a kept object; BMP; a b a b a; "
@@ -311,7 +324,8 @@ class World(object):
         self.objs, self.active = {}, []      # kept context objects by name; the with-blocks being executed
         self.entered = set()
         self.state = {"kind": "scp" if cls == "MachineController" else "bmp", "world": self,
-                      "machine": cfg.get("machine"), "env": cfg.get("env")}
+                      "machine": dict(cfg["machine"]) if cfg.get("machine") else None, "env": cfg.get("env")}
+        self.dims_seen, self.dims_src, self.dead_at_discover = None, None, []
         self.base_snap = None
         if cls == "MachineController":
             import rig.machine_control.machine_controller as m
@@ -375,7 +389,7 @@ class World(object):
     def load_machine(self):
         """memory image of the fake machine: P2P table dimensions and routes (dead chips have no route)"""
         from rig.machine_control import consts
-        mach = self.cfg.get("machine") or {}
+        mach = self.state.get("machine") or {}
         mw, mh = mach.get("dims", [2, 2])
         sv = self.c.structs[b"sv"]
         self.mem[sv.base + sv[b"p2p_dims"].offset] = struct.pack("<H", (mw << 8) | mh)
@@ -399,12 +413,31 @@ class World(object):
         for (x, y) in cfg.get("conns", []):
             c.connections[(x, y)] = FakeConn([x, y], self.log, self.mem, self.state)
 
+    def set_dead(self, dead):
+        """chips of the fake machine die / come back: the P2P table changes"""
+        self.state["machine"] = dict(self.state.get("machine") or {}, dead=[list(d) for d in dead])
+        self.load_machine()
+
     def snapshot(self):
-        """what `_get_connection` looks at, now"""
+        """what `_get_connection` looks at, now.  Root chip and the set of known connections are read off the
+        controller; the DIMENSIONS are not: once discover_connections has (re)written them, the snapshot names the
+        machine they were computed from (its P2P table size and the chips that had no route when it was read) and
+        the Lean model computes what the code computes from that (`discoveredDims`) - a controller that stored
+        something else picks its connections by the wrong wrap-around"""
         c = self.c
+        obs = (c._width, c._height)
+        if self.dims_seen is None:
+            self.dims_seen = obs            # (first call: the dimensions apply_cfg installed)
+        elif obs != self.dims_seen:
+            self.dims_seen = obs
+            mach = self.state.get("machine") or {}
+            self.dims_src = {"mdims": list(mach.get("dims", [2, 2])), "dead": sorted(self.dead_at_discover)}
         dims = [c._width, c._height] if c._width is not None and c._height is not None else None
         root = [int(c._root_chip[0]), int(c._root_chip[1])] if c._root_chip is not None else None
-        return {"dims": dims, "root": root, "conns": sorted([int(k[0]), int(k[1])] for k in c.connections if k is not None)}
+        snap = {"dims": dims, "root": root, "conns": sorted([int(k[0]), int(k[1])] for k in c.connections if k is not None)}
+        if self.dims_src is not None and dims is not None:
+            snap["from_machine"] = self.dims_src
+        return snap
 
 
 # --------------------------------------------------------------------------
@@ -700,6 +733,9 @@ def do_call(w, m, pos, kw, events, ev_id, fault=None):
     kwargs = py_dict(kw, _OBJS)
     exc, out, res = None, None, None
     w.state["fault"], w.state["req_no"] = fault, 0
+    if m == "discover_connections":
+        # the P2P table this call is going to read
+        w.dead_at_discover = [list(d) for d in (w.state.get("machine") or {}).get("dead", [])]
     from harness import common
     try:
         # the model's `exec` / `wire` are total; a call of the implementation takes milliseconds here: one that is
@@ -828,6 +864,8 @@ def run_prog(w, prog, events, hook=None):
                 w.objs[st["oid"]] = (cm, True)
             else:
                 enter_object(w, st, cm, True, events)
+        elif s == "machine":
+            w.set_dead(st["dead"])
         elif s == "enter":
             cm, is_app = w.objs[st["oid"]]
             enter_object(w, st, cm, is_app, events)
@@ -1039,7 +1077,7 @@ def evaluate(ctx, cases):
                     continue
                 ctx.tag("method:%s.%s" % ("mc" if case["cls"] == "MachineController" else "bmp", meth))
                 lab = case.get("label", "")
-                if lab.startswith(("scale/", "twins/", "companion")):
+                if lab.startswith(("scale/", "twins/", "companion", "discover-boards/")):
                     ctx.tag("stream:" + lab)
                 for kv in list(out.get("kwargs", [])):
                     if kv[1] is True or kv[1] is False:
@@ -1081,6 +1119,11 @@ def evaluate(ctx, cases):
                 oidx.append((ci, desc, e, "call", meth))
                 if any("cfg" in d for d in e["datagrams"]):
                     ctx.tag("conn:judged-against-rewritten-table")
+                if any("from_machine" in d.get("cfg", {}) for d in e["datagrams"]):
+                    ctx.tag("conn:dimensions-computed-from-p2p-table")
+                    fm = [d["cfg"]["from_machine"] for d in e["datagrams"] if "from_machine" in d.get("cfg", {})][0]
+                    if [fm["mdims"][0] - 1, fm["mdims"][1] - 1] in fm["dead"]:
+                        ctx.tag("conn:top-right-corner-dead")
                 if any(d["conn"] is not None for d in e["datagrams"]) and case["cls"] == "MachineController":
                     ctx.tag("conn:over-discovered-connection")
                 if any(isinstance(kv[1], dict) and "l" in kv[1] for kv in res["sent"]):
@@ -1363,7 +1406,7 @@ def random_machine(rng, big=False):
     w, h = rng.choice([(8, 8), (12, 12), (24, 12), (12, 24), (20, 16), (24, 24)] if big else [(2, 2), (2, 2), (8, 8), (3, 5)])
     root = [rng.choice([0, 0, 4, 8, 3]) % w, rng.choice([0, 0, 8, 4, 5]) % h]
     chips = [[x, y] for x in range(w) for y in range(h)]
-    pick = lambda pr: [c for c in chips if rng.random() < pr and c != [w - 1, h - 1]]
+    pick = lambda pr: [c for c in chips if rng.random() < pr]
     eth = []
     for bx in range(0, w + 12, 12):
         for by in range(0, h + 12, 12):
@@ -1372,8 +1415,89 @@ def random_machine(rng, big=False):
                 if e not in eth:
                     eth.append(e)
     some = lambda pr: [e for e in eth if rng.random() < pr]
-    return {"dims": [w, h], "root": root, "dead": pick(0.03), "eth_down": some(0.2), "sver_fail": some(0.2),
+    return {"dims": [w, h], "root": root, "dead": dead_chips(rng, w, h, eth), "eth_down": some(0.2), "sver_fail": some(0.2),
             "info_fail": some(0.15) + pick(0.02), "eth": eth}
+
+
+def dead_chips(rng, w, h, eth):
+    """chips without a route in the P2P table: anywhere, and preferably where the dimensions are read off - the
+    corners, the last column / top row (partly or wholly), Ethernet chips"""
+    dead = set()
+    for _ in range(rng.randrange(0, 4)):
+        r = rng.random()
+        if r < 0.25:
+            dead |= {(w - 1, h - 1 - i) for i in range(rng.randrange(1, max(2, h // 2)))}       # top of the last column
+        elif r < 0.4:
+            dead |= {(w - 1 - i, h - 1) for i in range(rng.randrange(1, max(2, w // 2)))}       # right end of the top row
+        elif r < 0.5:
+            dead |= {(w - 1, y) for y in range(h)} if rng.random() < 0.5 else {(x, h - 1) for x in range(w)}
+        elif r < 0.65:
+            dead |= {rng.choice([(0, 0), (0, h - 1), (w - 1, 0), (w - 1, h - 1)])}
+        elif r < 0.8:
+            dead |= {tuple(e) for e in eth if rng.random() < 0.3}
+        else:
+            dead |= {(rng.randrange(w), rng.randrange(h)) for _ in range(max(1, w * h // 30))}
+    if len(dead) >= w * h:
+        dead = set(list(dead)[1:])
+    return sorted([x, y] for (x, y) in dead)
+
+
+BOARD = [(x, y) for x in range(8) for y in range(8) if x - y <= 4 and y - x <= 3]      # the 48 chips of a SpiNN-5 board
+
+
+def discover_cases(ctx, rng, reps):
+    """discover_connections on multi-board machines with dead chips where the dimensions are read off; then a
+    command to chips of EVERY board - the Ethernet chip, the far corner, chips that lie across the wrap-around;
+    then chips die, discover_connections runs again, and commands follow again.  Every datagram is judged by the
+    Lean connection oracle against the dimensions the code computes from the machine's P2P table."""
+    cases = []
+    mc = "MachineController"
+    for rep in range(reps):
+        for (w, h) in [(12, 12), (24, 12), (12, 24), (24, 24), (36, 24), (20, 16), (13, 17), (8, 8), (16, 28)]:
+            cfg = random_cfg(rng, mc) if rng.random() < 0.3 else {"dims": None, "root": None, "conns": []}
+            mach = random_machine(rng, big=True)
+            root = [rng.choice([0, 0, 0, 4, 8]) % w, rng.choice([0, 0, 0, 8, 4]) % h]
+            eth = []
+            for bx in range(0, w + 12, 12):
+                for by in range(0, h + 12, 12):
+                    for dx, dy in ((0, 0), (4, 8), (8, 4)):
+                        e = [(bx + dx + root[0]) % w, (by + dy + root[1]) % h]
+                        if e not in eth:
+                            eth.append(e)
+            few = lambda pr: [e for e in eth if rng.random() < pr]
+            mach = {"dims": [w, h], "root": root, "dead": dead_chips(rng, w, h, eth), "eth": eth,
+                    "eth_down": few(0.1), "sver_fail": few(0.1), "info_fail": few(0.1)}
+            if rng.random() < 0.5:
+                mach["dead"] = sorted(mach["dead"] + [[w - 1, h - 1]])[:]       # greatest x and greatest y: different chips
+                mach["dead"] = [list(t) for t in sorted({tuple(d) for d in mach["dead"]})]
+            cfg["machine"] = mach
+            g = Gen(rng, mc, cfg)
+            g.cfg = {"dims": [w, h]}
+
+            def commands(dead, per_board):
+                out = []
+                deadset = {tuple(d) for d in dead}
+                for e in eth:
+                    offs = [(0, 0), (7, 7), (7, 3), (4, 7), (0, 3), (4, 0)] + rng.sample(BOARD, 3)
+                    wrapping = [o for o in offs if e[0] + o[0] >= w or e[1] + o[1] >= h]
+                    chosen = (wrapping[:1] if wrapping else []) + rng.sample(offs, per_board)
+                    for (dx, dy) in chosen[:per_board + 1]:
+                        t = ((e[0] + dx) % w, (e[1] + dy) % h)
+                        if t in deadset:
+                            continue
+                        g.used = set()
+                        st, nd = g.call(rng.choice(["read", "sdram_free", "get_chip_info", "iptag_get", "write"]), "context")
+                        nd["x"], nd["y"] = t
+                        out.append({"s": "block", "id": g.fresh_id(), "ctx": [[k, v] for k, v in nd.items()], "body": [st]})
+                return out
+            disc = lambda: g.call("discover_connections", rng.choice(["default", "keyword", "positional"]))[0]
+            prog = [disc()] + commands(mach["dead"], 2)
+            # chips die (or come back), the machine is looked at again
+            dead2 = dead_chips(rng, w, h, eth)
+            prog += [{"s": "machine", "dead": dead2}, disc()] + commands(dead2, 1)
+            cases.append({"cls": mc, "cfg": cfg, "init": None, "prog": prog, "depth": 1, "uses_ctx": True,
+                          "exc_exit": False, "label": "discover-boards/%dx%d" % (w, h)})
+    return cases
 
 
 FAULTS = {
@@ -2017,6 +2141,7 @@ def run(ctx):
         cases = systematic_cases(ctx, rng, ctx.scale(1, 6) * mult)
         cases += extra_cases(ctx, rng, ctx.scale(1, 8) * mult)
         cases += reuse_cases(ctx, rng, ctx.scale(3, 40) * mult)
+        cases += discover_cases(ctx, rng, ctx.scale(1, 6) * mult)
         cases += scale_cases(ctx, rng, ctx.scale(1, 2) * mult)
         cases += twin_cases(ctx, rng, ctx.scale(2, 16) * mult)
         cases += collection_cases(ctx, rng, ctx.scale(2, 12) * mult)
